@@ -51,7 +51,7 @@ ROUTE = {
     "d4parse": "dhcp", "sub82p": "dhcp",
     "d4msg": "dhcp4",
     "sub82": "ipoe",
-    "sesspap": "sess", "sesschap": "sess", "fzsess": "sess", "fzseq": "sess", "bkdhcp6": "sess", "bkrakick": "sess", "bkevd6": "sess", "bkevra": "sess", "bkevl2": "ipoe",
+    "sesspap": "sess", "sesschap": "sess", "fzsess": "sess", "fzseq": "sess", "bkdhcp6": "sess", "bkrakick": "sess", "bkevd6": "sess", "bkevra": "sess", "bkevl2": "ipoe", "bkpadr": "sess",
     "bkl2gw": "ipoe",
     "attr80": "radius", "fzrad": "radius", "radreply": "radius", "radreqauth": "radius", "radma": "radius", "coaattrs": "radius", "radex": "radius", "radparse": "radius",
     "ipoeopts": "ipoe", "l2ppp": "il2tp", "fzipoe": "ipoe",
@@ -956,6 +956,11 @@ def gen_cases(rng, tier, budget):
         add(case("bkevra", [rng.choice([16, 2, 0, 5])], ev))
         add(case("bkevl2", [rng.choice([16, 2, 0, 5])], ev))
     add(case("bkevd6", [16], b"A" * 20 + b"F" * 20 + b"A" * 3))
+    # PPPoE discovery with the session-id space exhausted: refused PADR, ids freed (F) or sessions ended by PADT (T), PADR again
+    for free, ev in ((0, b"RRFR"), (0, b"RFRTR"), (1, b"RRFRR"), (2, b"RRRTTRR"), (0, b"R"), (0, b"FRTRR")):
+        add(case("bkpadr", [free], ev))
+    for _ in range(4 if q else 60):
+        add(case("bkpadr", [rng.choice([0, 0, 1, 3])], bytes(rng.choice(b"RRRFT") for _ in range(rng.randint(2, 10)))))
     # --- gopacket decode through the shm ingress (supporting validation only) --------------------------------
     frames = eth_frames(rng) + eth_frames(rng)
     pool = [f for _, f in frames]
@@ -1021,6 +1026,11 @@ def classify(case_line, impl, model):
         n = case_line.split()[1].split(",")[0]
         if False:
             pass
+        if e.startswith("bkpadr"):
+            k = next((i for i, (a, b) in enumerate(zip(it, mt)) if a != b), min(len(it), len(mt)))
+            return "P", ("bkpadr: at step %d of the discovery history (R = PADR, F = id freed, T = PADT) the handler outcome / free ids are %r, "
+                         "expected %r (3 = the PADR handler did not return: discovery is wedged)" %
+                         ((k - 1) // 2 + 1, " ".join(it[k - (k + 1) % 2:][:2]), " ".join(mt[k - (k + 1) % 2:][:2])))
         if e.startswith("bkev"):
             k = next((i for i, (a, b) in enumerate(zip(it, mt)) if a != b), min(len(it), len(mt)))
             return "P", ("%s: at step %d of the arrive/finish history the real queue (occupancy, outcome) is %r, the pool model says %r"
@@ -1056,7 +1066,7 @@ def classify(case_line, impl, model):
 
 def shrink(case_line):
     t = case_line.split()
-    if t[0].startswith("bkev"):
+    if t[0].startswith("bkev") or t[0] == "bkpadr":
         b = _payload(case_line)
         for i in range(len(b) - 1, -1, -1):
             yield " ".join(t[:2] + [hx(b[:i] + b[i + 1:])])
